@@ -304,8 +304,8 @@ func runHistory(work string, m *mdl, hs []hop) histOutcome {
 			if !ok {
 				tm = 1
 			}
-			if strings.HasPrefix(impl, "PUTOK") {
-				// the boolean form of put_get, on the model state before the Put
+			if strings.HasPrefix(impl, "PUTOK") && len(d) <= 512 {
+				// the boolean form of put_get, on the model state before the Put (the 40000-byte content is left out: cost)
 				var ch []string
 				for _, x := range chunk32k(d, len(d)-1) {
 					ch = append(ch, m.ref(x))
@@ -313,7 +313,9 @@ func runHistory(work string, m *mdl, hs []hop) histOutcome {
 				ask(i, "c05_put_holds_on", fmt.Sprintf("putholds05 %s %d %s", idhex, tm, strings.Join(ch, " ")), "true")
 			}
 			ask(i, h.Kind, m.honestPutReq(id, tm, d), impl)
-			holdsReq(i)
+			if len(d) <= 512 {
+				holdsReq(i)
+			}
 			out.tags["op:put"]++
 			if strings.HasPrefix(impl, "PUTOK") {
 				// direct oracle: Put then GetBytes returns the data; GetFile names a file holding it
@@ -931,7 +933,7 @@ func runC05(f *common.Flags, res *common.Result, m *mdl) {
 	}
 	r := common.NewRNG(f.Seed)
 	// 2. the entry codec alone: raw entry, then Get / GetBytes / GetFile (with and without the output present)
-	nCodec, nHist := 1500, 2000
+	nCodec, nHist := 700, 2000
 	if f.Tier == "thorough" {
 		nCodec, nHist = 30000, 40000
 	}
